@@ -112,10 +112,23 @@ def call_root(frame):
     return ("none", None, tuple(via))
 
 
+def builtin_base(obj):
+    for b in (str, int, list):
+        if isinstance(obj, b):
+            return b
+    return None
+
+
 def _log(kind, obj, name, frame):
     code = frame.f_code
-    root = call_root(frame) if kind == "call" else None
-    STATE.log.append((kind, type(obj).__name__, name, caller_class_of_code(code), code.co_name, root))
+    root = native = None
+    if kind == "call":
+        root = call_root(frame)
+        # is the method one the value's builtin base type really has (a str treated as a str), or a foreign name that only
+        # duck typing would look for (decode on an object, isoformat on a str ...)?
+        b = builtin_base(obj)
+        native = b is not None and hasattr(b, name)
+    STATE.log.append((kind, type(obj).__name__, name, caller_class_of_code(code), code.co_name, root, native))
 
 
 def arm():
@@ -418,6 +431,37 @@ class CObj(ObjMixin):
     pass
 
 
+def _proto(name, value):
+    def m(self, *a):
+        if STATE.armed:
+            _log("special", self, name, sys._getframe(1))
+        return value() if callable(value) else value
+
+    m.__name__ = name
+    return m
+
+
+class CProto(ObjMixin):
+    """A plain object that also answers the tempting conversion protocols (each logged as a 'special' event); every other
+    public name (decode, encode, read, hex, isoformat, timestamp, keys, strip, lower ...) is a logged callable while armed."""
+
+    __fspath__ = _proto("__fspath__", "/frv_c09_trip/fspath")
+    __index__ = _proto("__index__", 7)
+    __int__ = _proto("__int__", 7)
+    __float__ = _proto("__float__", 7.5)
+    __bytes__ = _proto("__bytes__", b"proto")
+    __len__ = _proto("__len__", 2)
+    __iter__ = _proto("__iter__", lambda: iter((CStr("p1"), CStr("p2"))))
+    __format__ = _proto("__format__", "proto")
+
+    def __getitem__(self, k):
+        if STATE.armed:
+            _log("special", self, "__getitem__", sys._getframe(1))
+        if isinstance(k, int) and 0 <= k < 2:
+            return CStr("p%d" % (k + 1))
+        raise IndexError(k)
+
+
 # ---- deep state snapshot (for stand-ins, where observe.obs does not apply) ---------------------------------
 def snapshot(v, depth=0):
     """Deterministic rendering of the complete state reachable from v (never calls a logged method)."""
@@ -501,9 +545,9 @@ FIELDS = [("string", "s"), ("string", "t"), ("varint", "n"), ("string[]", "l"), 
 
 
 def standin_record():
-    return StandIn("c09/standin", FIELDS, {
+    return StandIn("c09/standin", FIELDS + [("record", "p")], {
         "s": CStr("Abc Def"), "t": CStr("other"), "n": CInt(5), "l": CList([CStr("a1"), CStr("b2")]),
-        "k": CList([CInt(1), CInt(2), CInt(3)]), "o": CObj._make(1),
+        "k": CList([CInt(1), CInt(2), CInt(3)]), "o": CObj._make(1), "p": CProto._make(0),
     })
 
 
@@ -556,7 +600,7 @@ def real_canary_record():
 
 
 TYPED_FIELDS = [("string", "s"), ("wstring", "w"), ("uri", "u"), ("varint", "n"), ("filesize", "fs"), ("unix_file_mode", "mode"), ("dynamic", "o"),
-                ("dynamic", "d2"), ("stringlist", "sl"), ("record", "sub"), ("record[]", "subs")]
+                ("dynamic", "d2"), ("stringlist", "sl"), ("record", "sub"), ("record[]", "subs"), ("record", "p"), ("record", "q")]
 
 
 def real_typed_record():
@@ -585,6 +629,7 @@ def real_typed_record():
         s=c["CFStr"]("Abc Def"), w=c["CFStr"]("wide"), u=c["CFUri"]("http://h/p/file.txt"), n=c["CFInt"](5), fs=c["CFSize"](4096),
         mode=c["CFMode"](0o644), o=c["CFObj"]._make(1), d2=c["CFStr"]("dyn"), sl=c["CFStringList"]([CStr("x1"), CStr("y2")]),
         sub=real_canary_record(), subs=[real_canary_record()],
+        p=CProto._make(0), q=CObj._make(0),  # a `record` typed field keeps any object as it is
     )
 
 
@@ -596,7 +641,7 @@ def real_plain_record():
 def count_canaries(rec):
     """How many slots of a real record still hold canary-tagged values (what survived Record.__setattr__)."""
     n = 0
-    for k in ("s", "t", "n", "l", "k", "o", "w", "u", "fs", "mode", "d2", "sl"):
+    for k in ("s", "t", "n", "l", "k", "o", "w", "u", "fs", "mode", "d2", "sl", "p", "q"):
         v = getattr(rec, k, None)
         if isinstance(v, CanaryBase):
             n += 1
